@@ -1,21 +1,25 @@
 #!/bin/bash
-# tools/seedmatrix.sh [props...]  -- run every kept seeded change against its property's quick check (scratch worktrees);
+# tools/seedmatrix.sh [Cxx | Cxx/k ...]  -- run kept seeded changes against their property's quick check (scratch worktrees);
 # writes seeded/MATRIX.md: one row per seed with verdict and first reported reason
 cd /verif
-PROPS=${@:-$(ls seeded | grep '^C')}
+ARGS=${@:-$(ls seeded | grep '^C')}
 OUT=seeded/MATRIX.md
 [ -f $OUT ] || echo "| seed | check | verdict | first reported reason |" > $OUT
-for p in $PROPS; do for d in seeded/$p/*/; do k=$(basename $d)
+for a in $ARGS; do
+  p=${a%%/*}
+  if [ "$a" = "$p" ]; then DIRS=$(ls -d seeded/$p/*/); else DIRS=seeded/$a/; fi
+  for d in $DIRS; do k=$(basename $d)
   WT=/tmp/st-$p
   [ -d $WT ] || git -C /repo worktree add -q $WT HEAD
-  (cd $WT && git checkout -q -- . && git clean -fdq -e target && git reset -q --hard $(git -C /repo rev-parse HEAD) && git apply /verif/$d/patch.diff) || { echo "| $p/$k | $p | PATCH-DOES-NOT-APPLY | |" >> $OUT; continue; }
-  VERIF_REPO=$WT timeout 3000 ./check $p > /tmp/sm_$p_$k.out 2>&1; rc=$?
-  why=$(grep -m1 "^  ->" /tmp/sm_$p_$k.out | cut -c6-220 | tr '|' '/')
-  nf=$(grep -c "no-failing-input-found" /tmp/sm_$p_$k.out)
-  nv=$(grep -c "^VIOLATION" /tmp/sm_$p_$k.out)
+  (cd $WT && git checkout -q -- . && git clean -fdq -e target && git reset -q --hard $(git -C /repo rev-parse HEAD) && git apply /verif/$d/patch.diff) || { sed -i "/^| $p\/$k |/d" $OUT; echo "| $p/$k | $p | PATCH-DOES-NOT-APPLY | |" >> $OUT; continue; }
+  VERIF_REPO=$WT timeout 3000 ./check $p > /tmp/sm_${p}_$k.out 2>&1; rc=$?
+  why=$(grep -m1 "^  ->" /tmp/sm_${p}_$k.out | cut -c6-220 | tr '|' '/')
+  nf=$(grep -c "no-failing-input-found" /tmp/sm_${p}_$k.out)
+  nv=$(grep -c "^VIOLATION" /tmp/sm_${p}_$k.out)
   v="MISSED"; [ $rc -eq 1 ] && v="caught ($nv violation lines$([ $nf -gt 0 ] && [ $nf -eq $nv ] && echo ', no concrete input'))"; [ $rc -gt 1 ] && v="ERROR rc=$rc"
   sed -i "/^| $p\/$k |/d" $OUT
   echo "| $p/$k | $p | $v | $why |" >> $OUT
+  echo "$p/$k: $v"
   (cd $WT && git checkout -q -- . && git clean -fdq -e target)
 done; done
 sort -o $OUT -k2,2 -t'|' $OUT
